@@ -37,6 +37,9 @@ func (m *Machine) argStr(v Value, why string) string {
 }
 
 func (m *Machine) violation(kind, label, detail string, model map[string]uint64) *Violation {
+	if m.note != "" {
+		detail += " | " + m.note
+	}
 	v := &Violation{Kind: kind, Label: label, Detail: detail, Choices: append([]int{}, m.forced[:m.pos]...)}
 	if model != nil {
 		v.Model = m.decodeInputs(model)
@@ -52,8 +55,16 @@ func (m *Machine) decodeInputs(model map[string]uint64) map[string]any {
 		case "bool":
 			out[in.Name] = model[in.Term.Name] == 1
 		case "int":
-			v := model[in.Term.Name]
-			out[in.Name] = sext(v, in.W)
+			nm := in.Term.Name
+			if in.Term.Op == "lin" {
+				nm = in.Term.Lin.Vars[0]
+			}
+			v := model[nm]
+			if in.Unsigned {
+				out[in.Name] = int64(v)
+			} else {
+				out[in.Name] = sext(v, in.W)
+			}
 		case "choose":
 			out[in.Name] = in.W
 		case "string":
@@ -89,6 +100,12 @@ func init() {
 	})
 	regHarness("vDuration", func(m *Machine, fr *frame, a []Value) Value {
 		return m.symBV(m.argStr(a[0], "vDuration name"), 64)
+	})
+	regHarness("vDurationN", func(m *Machine, fr *frame, a []Value) Value {
+		// a non-negative duration of at most `bits` bits: a narrow variable zero-extended to 64 bits keeps the
+		// bit-blasted time arithmetic small
+		bits := int(m.concInt(a[1].(*Term), "vDurationN bits"))
+		return m.symLin(m.argStr(a[0], "vDurationN name"), bits)
 	})
 	regHarness("vUint32", func(m *Machine, fr *frame, a []Value) Value {
 		return m.symBV(m.argStr(a[0], "vUint32 name"), 32)
@@ -200,6 +217,15 @@ func init() {
 		m.fixedOrderTypes = append(m.fixedOrderTypes, m.argStr(a[0], "vFixMapOrderType"))
 		return nil
 	})
+	regHarness("vNote", func(m *Machine, fr *frame, a []Value) Value {
+		s := a[0].(*Str).normalize()
+		if s.conc {
+			m.note = s.s
+		} else {
+			m.note = "(symbolic note)"
+		}
+		return nil
+	})
 	regHarness("vSymbolic", func(m *Machine, fr *frame, a []Value) Value { return tTrue })
 	regHarness("vIsConcrete", func(m *Machine, fr *frame, a []Value) Value {
 		switch v := a[0].(Iface).V.(type) {
@@ -248,7 +274,7 @@ func init() {
 		m.blockUntil("vBlockUntil", func() bool {
 			m.cur.atomicDepth++
 			defer func() { m.cur.atomicDepth-- }()
-			return m.call(fr, 0, fn, nil).(*Term).IsTrue()
+			return m.branch(m.call(fr, 0, fn, nil).(*Term))
 		})
 		return nil
 	})
